@@ -98,7 +98,7 @@ class Ctx:
         return d
 
     def tlc(self, module, cfg=None, files=(), workers=None, simulate=None, depth=None, timeout=900,
-            extra_files=None, expect_violation=False, coverage=False, deadlock=False, jvm=("-Xss512m",),
+            extra_files=None, expect_violation=False, coverage=False, deadlock=False, jvm=("-Xss1g",),
             name=None, heap=None):
         """Run TLC on spec/<module>.tla with spec/<cfg> in a scratch copy. Returns a dict with
         states/distinct/ok/violated/output. Raises MachineryError on tool failure."""
